@@ -29,3 +29,36 @@ def run(chk):
                 break
     chk.cov['oneline_evaluations'] = n
     chk.stage('oneline-corollary', values=len(vals), prints=n, failures=bad)
+    design_level(chk, vals)
+
+
+def design_level(chk, vals):
+    """The same corollary proved on the concrete pipeline model (PrintersMC.tla) for the values inside its domain."""
+    import os
+    import common
+    from checks import values_checks as VC
+    cases = []
+    for i, (name, v) in enumerate(vals):
+        for ind in (4, 1):
+            try:
+                cases.append({'id': len(cases) + 1, 'val': VC.model_term(v, False), 'indent': ind, 'name': name[:120]})
+            except Exception:  # noqa
+                pass
+    cfg = "INIT Init\nNEXT Next\nINVARIANT Report\nCHECK_DEADLOCK FALSE\n"
+    v, st = common.tlc_batch('PrintersMC', cfg, cases, os.path.join(chk.workdir, 'printersmc'), tags=('ONE',),
+                             min_per_shard=60, heap='3g')
+    chk.add_model(st)
+    tally = {}
+    for c in cases:
+        line = v['ONE'].get(c['id'])
+        if not line:
+            chk.machinery_error('PrintersMC gave no verdict for %r' % (c['name'],))
+            continue
+        verdict = line[0][2]
+        tally[verdict] = tally.get(verdict, 0) + 1
+        if verdict == 'BROKEN':
+            # the model breaks a one-line value at width >= L: a defect of the design if the code agrees with the
+            # model (then the corollary check above has already reported it), drift of the model otherwise
+            chk.drifted('PrintersMC: the pipeline model does not keep %s on one line at width >= L' % (c['name'],))
+    chk.cov['oneline_model'] = tally
+    chk.stage('tlc.model-check PrintersMC (one-line corollary on the pipeline model)', cases=len(cases), **tally)
